@@ -586,6 +586,8 @@ api(const char* op)
     pending_api = "";
 }
 
+static enum SampleType parse_type(const char* s);
+
 static void
 run_prog(void)
 {
@@ -652,6 +654,12 @@ run_prog(void)
             int s = atoi(prog[++i]);
             SC[s].w = (uint32_t)atoi(prog[++i]);
             SC[s].h = (uint32_t)atoi(prog[++i]);
+            do_configure();
+            api("configure");
+        } else if (!strcmp(op, "pixtype")) {
+            // pixtype S TYPE: the camera of stream S gets another sample type at unchanged dimensions (then configure)
+            int s = atoi(prog[++i]);
+            SC[s].type = parse_type(prog[++i]);
             do_configure();
             api("configure");
         } else if (!strcmp(op, "join2")) {
